@@ -25,7 +25,7 @@ pub fn run(case: &Value) -> Value {
     for (k, node) in nodes.iter().enumerate() {
         let base = match node["parent"].as_u64() {
             Some(j) if usize::try_from(j).unwrap() < k => dirs[usize::try_from(j).unwrap()].join("buildpacks"),
-            _ => tmp.path().to_path_buf(),
+            _ => tmp.path().join("ws"),
         };
         let dir = base.join(format!("d{k:03}"));
         dirs.push(dir.clone());
@@ -61,8 +61,15 @@ pub fn run(case: &Value) -> Value {
         if !(node["no_pkg"] == true && node["deps"].as_array().unwrap().is_empty() && node["noise"].as_array().is_none_or(Vec::is_empty)) {
             fs::write(dir.join("package.toml"), pkg).unwrap();
         }
+        // "link": the directory lives outside the workspace and is linked into it (a shared buildpack)
+        if node["link"] == true {
+            let real = tmp.path().join("real").join(format!("d{k:03}"));
+            fs::create_dir_all(real.parent().unwrap()).unwrap();
+            fs::rename(&dir, &real).unwrap();
+            std::os::unix::fs::symlink(&real, &dir).unwrap();
+        }
     }
-    let graph = match build_libcnb_buildpacks_dependency_graph(tmp.path()) {
+    let graph = match build_libcnb_buildpacks_dependency_graph(&tmp.path().join("ws")) {
         Ok(g) => g,
         Err(BuildBuildpackDependencyGraphError::CreateDependencyGraphError(CreateDependencyGraphError::MissingDependency(id))) => {
             return json!({"id": case["id"], "graph": null, "missing": id_num(&id), "nodes": [], "orders": []});
